@@ -518,6 +518,7 @@ func (e *factEngine) fromCond(cond ssa.Value, truth bool, v ssa.Value, f factSet
 	}
 	// string predicates: strings.HasPrefix(v, "-"), strings.Contains(v, "=")
 	if call, ok := cond.(*ssa.Call); ok {
+		e.predicateFacts(call, truth, v, f)
 		if callee := call.Call.StaticCallee(); callee != nil && core.PkgPathOf(callee) == "strings" && len(call.Call.Args) == 2 && call.Call.Args[0] == v && !truth {
 			if c, isC := call.Call.Args[1].(*ssa.Const); isC && c.Value != nil && c.Value.Kind() == constant.String {
 				switch callee.Name() {
